@@ -342,7 +342,7 @@ def build(c, V, allow_reset=False, only=None):
     c.cover("retry_attempt", z3.And(sending, retry == 1, tx_ready))
     c.cover("nak", nak)
     c.cover("ack_after_retry", z3.And(acked, retry == 1))
-    deep = MAX <= 4 or (MAX <= 8 and c.tier != "quick")      # BMC through MAX-byte packets: small sizes only
+    deep = MAX <= 4                                           # BMC through whole MAX-byte packets + ZLP + retry: small sizes only
     c.cover("full_packet_acked", z3.And(acked, plen == MAX), reach=deep)
     c.cover("zlp_sent", z3.And(zlp_now, zlp_owed == 1), reach=deep)
     c.cover("zlp_retried", z3.And(zlp_now, retry == 1), reach=deep)
